@@ -2,7 +2,7 @@
    The digest H is universally quantified (nothing is assumed about sha256 except its 32-byte
    output length), so collisions appear as explicit disjuncts, never as hidden assumptions. *)
 From Coq Require Import NArith List.
-From LV Require Import Model.Envelope Proofs.Envelope.
+From LV Require Import Model.Envelope Proofs.Envelope Gen.SegmentMap.
 Import ListNotations.
 Open Scope N_scope.
 
@@ -50,6 +50,35 @@ Proof.
   destruct (N.ltb_spec u64_max (48 + be_decode (firstn 8 (skipn 8 b)))) as [_|Hc]; [discriminate|].
   exfalso. apply N.lt_nge in Hov. apply Hov. exact Hc.
 Qed.
+
+(* Partition-segment codec maps, REGENERATED from partition_segment.rs / codec.rs on every run (T1):
+   the serialiser and the deserialiser enumerate codec ops, data-section kinds and encoding types by
+   hand in two places; these theorems say the two places agree. *)
+Theorem C14_types_roundtrip :
+  forall t w, ser_ty t = Some w -> de_ty w = Some t.
+Proof. intros t w Hs; destruct t; cbn in Hs; injection Hs as <-; reflexivity. Qed.
+
+Theorem C14_ops_roundtrip :
+  forall o w, ser_op o = Some w -> de_op w = Some o.
+Proof.
+  intros o w Hs; destruct o;
+    repeat match goal with a : enc_type |- _ => destruct a end;
+    cbn in Hs; try discriminate; injection Hs as <-; reflexivity.
+Qed.
+
+(* every codec op except the placeholder `Unknown` can be written, for every encoding type the type
+   map knows *)
+Theorem C14_ops_total :
+  forall o, o <> CO_Unknown -> exists w, ser_op o = Some w.
+Proof.
+  intros o Hne; destruct o;
+    repeat match goal with a : enc_type |- _ => destruct a end;
+    try congruence; eexists; reflexivity.
+Qed.
+
+Theorem C14_sections_roundtrip :
+  forall k, exists w, ser_sec k = Some w /\ de_sec w = Some k.
+Proof. intros k; destruct k; eexists; split; reflexivity. Qed.
 
 (* non-vacuity *)
 Example C14_example :
